@@ -71,7 +71,10 @@ func (c *Chain) setLogsLocked(n uint64, logs []types.Log) {
 	out := make([]types.Log, len(logs))
 	for i, l := range logs {
 		l.BlockNumber = n
-		l.BlockHash = h.Hash()
+		if !(l.Removed && l.BlockHash != (common.Hash{})) {
+			// a removed log may keep the hash of the orphaned block it came from
+			l.BlockHash = h.Hash()
+		}
 		if l.TxHash == (common.Hash{}) {
 			l.TxHash = common.BigToHash(new(big.Int).SetUint64(n<<16 | uint64(i)<<4 | c.forkID&0xf))
 		}
